@@ -171,7 +171,7 @@ def step (C : Cfg) (w : World) : Op → Except Err World
     if dst = src then .error (.bad "self merge") else
     match d.obj, s.obj with
     | .kll a, .kll b =>
-      let (r, h) ← runM w (Kll.merge a b byMove coins)
+      let (r, h) ← runM w (Kll.mergeChecked a b byMove coins)
       okW w h (World.put (World.put w.objs { s with usable := !byMove }) { d with obj := .kll r.1 })
     | .fi a, .fi b =>
       let (r, h) ← runM w (Fi.Sketch.merge C.fi a b byMove)
